@@ -17,6 +17,8 @@ from simkit.threads import BatonScheduler
 
 ID = "C12"
 LEVEL = "exploration"
+TECHNIQUE = ('deterministic simulation of interleavings: engine A (generator steps and statement-level nesting chosen by the tape, neighbour faults), engine B (real threads, baton passing, settrace line-event pre-emption), child interpreters under four PYTHONHASHSEED values; oracle = bytes of the solo run')
+LEVEL_NOTE = ('seeded search over schedules; pre-emption only at Python line boundaries inside pyjelly')
 RUNS = {"quick": 8000, "thorough": 120000}
 CHUNK = 40
 RULE = ("2-4 independent workloads (serialize / parse, either integration, sometimes sharing one SerializerOptions "
